@@ -3,8 +3,12 @@ CONSTANTS
   Contents = {"A", "B", "C"}
   MaxOps = 4
   Kinds = {"write", "replace"}
-  Fates = {"deliver", "drop", "dup"}
+  Fates = {"deliver", "drop"}
+  Rejects = {"B"}
+  CbOps = "one"
   Recheck = TRUE
+  Post = "forget"
+  Record = "always"
   Export = FALSE
-INVARIANTS TypeOK NoRepeat NoHazard
+INVARIANTS TypeOK NoHazard
 PROPERTIES NeverForEvaluated Converges LoadsFinal
